@@ -1250,8 +1250,12 @@ func TestC08(t *testing.T) {
 }
 
 // c08Setup builds the lend universe on a fresh chain (deterministic given variant).
+// c08InitialHeight: when set, the next lend universes start at this height (used to reach the daily hook of the lend
+// begin blocker, which fires at multiples of 14400).
+var c08InitialHeight int64
+
 func c08Setup(t *testing.T, rec *ev.Rec, rnd *rand.Rand, run, variant int, liqRun bool) *c08Env {
-	c := sim.New(sim.Options{NAccts: 7, Balances: lendBalances()})
+	c := sim.New(sim.Options{NAccts: 7, Balances: lendBalances(), InitialHeight: c08InitialHeight})
 	e := &c08Env{t: t, c: c, rec: rec, rnd: rnd, run: run, variant: variant, liqRun: liqRun, lastDiff: map[string]string{}, pairs: map[uint64]lendtypes.Extended_Pair{}, sampled: map[string]bool{}}
 	c.PanicHook = func(phase string, h int64, r interface{}) {
 		e.panicked = true
